@@ -13,7 +13,9 @@ CONSTANTS
   Ranges = {25}
   Offsets = {0, 5}
   UseSTs = {TRUE}
+  Steps = {0}
+  NSteps = 1
   BuildMode = FALSE
   EmitOn = TRUE
-INVARIANTS TypeOK ImplMatchesRef IncrementsLaw NonNegative IncreaseIsRateTimesRange NoResetIncreaseIsDelta FactorBounded CountsBounded OffsetLaw Emit
+INVARIANTS TypeOK ImplMatchesRef WindowReuse IncrementsLaw NonNegative IncreaseIsRateTimesRange NoResetIncreaseIsDelta FactorBounded CountsBounded OffsetLaw Emit
 CHECK_DEADLOCK FALSE
